@@ -5,8 +5,9 @@ import ast
 
 import z3
 
+from .contracts import REGISTRY
 from .core import Core, State, fresh_name, pin, simp
-from .vals import BM, Builtin, Cls, Fn, It, Mod, Mt, Star, SuperProxy, T, Tup, Unsupported
+from .vals import BM, Builtin, Cls, Fn, It, Mod, Mt, PyMap, Star, SuperProxy, T, Tup, Unsupported
 
 OK, RAISE = "ok", "raise"
 
@@ -153,6 +154,10 @@ class ExprMixin(Core):
         # nested function of the current function
         if f"{self.fn_key}.<locals>.{n}" in src.functions:
             return Fn(f"{self.fn_key}.<locals>.{n}")
+        # a class-level constant read inside the class body / a default argument (PRECEDENCE_LOWEST in class Parser)
+        for cn, ci in src.classes.items():
+            if ci.module == mod and n in ci.class_attrs and (self.cur_class is None or cn in src.mro(self.cur_class) or True):
+                return self.const_eval(ci.class_attrs[n], mod)
         # module-level constant
         tree = src.tree.get(mod)
         if tree is not None:
@@ -168,6 +173,21 @@ class ExprMixin(Core):
             return self.ev1(node, State(mode="spec"))
         finally:
             self.cur_module = save
+
+    def ev_Dict(self, node, st):
+        """{k1: v1, ...} with constant keys: an analysis-time table (PyMap)"""
+        if any(k is None for k in node.keys):
+            raise Unsupported("dict unpacking")
+
+        def k(vals, s):
+            n = len(node.keys)
+            keys, values = vals[:n], vals[n:]
+            for kk in keys:
+                if not (isinstance(kk, T) and kk.kind in ("V", "str", "int")):
+                    raise Unsupported("dict literal key")
+            return self.ok(PyMap([(self.box(kk), v) for kk, v in zip(keys, values)]), s)
+
+        return self.ev_seq(list(node.keys) + list(node.values), st, k)
 
     def ev_Tuple(self, node, st):
         if any(isinstance(e, ast.Starred) for e in node.elts):
@@ -500,6 +520,9 @@ class ExprMixin(Core):
 
     def contains(self, container, item, st):
         """`item in container` for tuples/frozensets of constants, dicts, strings"""
+        if isinstance(container, PyMap):
+            it = self.box(item)
+            return z3.Or(*[it == kterm for kterm, _ in container.items]) if container.items else z3.BoolVal(False)
         if isinstance(container, Tup):
             return z3.Or(*[self.py_eq(item, x, st) if st.mode == "code" else self.struct_eq(item, x) for x in container.items]) if container.items else z3.BoolVal(False)
         if isinstance(container, T) and container.kind == "str":
@@ -558,6 +581,19 @@ class ExprMixin(Core):
                 return self.const_eval(ci.class_attrs[attr], ci.module)
         return None
 
+    def property_key(self, cls, attr, own=False):
+        """contract key of the @property `attr` of cls (own: defined by cls itself), None if there is none"""
+        src = self.U.src
+        for c in ([cls] if own else src.mro(cls)):
+            ci = src.classes.get(c)
+            if ci and attr in ci.methods:
+                fn = ci.methods[attr]
+                key = f"{ci.module}:{c}.{attr}"
+                if any(isinstance(d, ast.Name) and d.id == "property" for d in fn.decorator_list) and key in REGISTRY:
+                    return key  # properties without a contract (abstract declarations overridden by class attributes) stay attributes
+                return None
+        return None
+
     def get_attr(self, v, attr, st, node=None):
         U = self.U
         src = U.src
@@ -581,6 +617,9 @@ class ExprMixin(Core):
         if isinstance(v, Rec):
             if attr in v.fields:
                 return self.ok(v.fields[attr], st)
+            pk = self.property_key(v.cls, attr)
+            if pk is not None:
+                return self.call_contract(pk, v, [], {}, st)
             c = self.class_const_attr(v.cls, attr)
             if c is not None:
                 return self.ok(c, st)
@@ -589,11 +628,19 @@ class ExprMixin(Core):
             raise Unsupported(f"attribute {attr} of object under construction")
         if isinstance(v, T) and v.kind != "V":
             return self.ok(BM(v, attr), st)
-        if isinstance(v, (Tup, It, Mt)):
+        if isinstance(v, (Tup, It, Mt, PyMap)):
             return self.ok(BM(v, attr), st)
         if not isinstance(v, T):
             raise Unsupported(f"attribute {attr} of {v}")
         t = v.t
+        if v.kind == "V" and st.mode == "code":
+            owners = [c for c in U.obj_classes if self.property_key(c, attr, own=True) is not None]
+            if owners:
+                # a property: a method call through its contract (the receiver must be an instance of the defining class)
+                if len(owners) != 1:
+                    raise Unsupported(f"property {attr} defined by several classes")
+                self.oblige(st, f"safety:attr:{attr}", self.isinstance_term(v, Cls(owners[0])), f"receiver of property {attr}")
+                return self.call_contract(self.property_key(owners[0], attr), v, [], {}, st)
         if v.kind == "V" and z3.is_app(t) and t.decl().kind() == z3.Z3_OP_DT_CONSTRUCTOR and t.decl().name().startswith("C_"):
             # attribute of an explicitly constructed object: the constructor argument itself (accessor-of-constructor)
             cname = t.decl().name()[2:]
@@ -613,6 +660,11 @@ class ExprMixin(Core):
         for c in U.obj_classes:
             if attr not in src.classes[c].fields:
                 cv = self.class_const_attr(c, attr)
+                if isinstance(cv, (PyMap, Tup)):
+                    # a class-level table: an analysis-time value, not a datatype term (the receiver must be of that class)
+                    if st.mode == "code":
+                        self.oblige(st, f"safety:attr:{attr}", self.isinstance_term(v, Cls(c)), f"receiver of class constant {attr}")
+                    return self.ok(cv, st)
                 if cv is not None and not isinstance(cv, (Cls, Fn, BM, Builtin)):
                     alts.append((U.is_("C_" + c, t), self.box(cv)))
         if not alts:
@@ -656,6 +708,28 @@ class ExprMixin(Core):
 
     # ---------------- subscripts -----------------
     def ev_Subscript(self, node, st):
+        cc = self.cur_contract
+        if (st.mode == "code" and cc is not None and getattr(cc, "dispatch", None) and ast.unparse(node.value) in cc.dispatch
+                and not isinstance(node.slice, ast.Slice) and self.fn_key_inner is None and isinstance(node.ctx, ast.Load)):
+            # self.table[key] as a value: the bound method of the entry the key equals (one path per entry), or KeyError
+            table = self.init_table(self.cur_class, cc.dispatch[ast.unparse(node.value)])
+            recv = st.env.get("self")
+
+            def k_key(key, s):
+                kt = self.box(key)
+                out = []
+                rest = s
+                for kexpr, mname in table:
+                    kv = self.box(self.const_eval(kexpr, self.cur_module))
+                    hit = rest.fork(kt == kv)
+                    if self.feasible(hit):
+                        out.extend(self.ok(BM(recv, mname), hit))
+                    rest = rest.fork(kt != kv)
+                if self.feasible(rest):
+                    out.extend(self.raise_(rest, "KeyError"))
+                return out
+
+            return self.bind(self.ev(node.slice, st), k_key)
         if isinstance(node.slice, ast.Slice):
             sl = node.slice
             parts = [sl.lower, sl.upper, sl.step]
@@ -669,12 +743,44 @@ class ExprMixin(Core):
             return self.bind(self.ev(node.value, st), k)
         return self.ev_seq([node.value, node.slice], st, lambda vs, s: self.subscript(vs[0], vs[1], s, node))
 
+    def pymap_lookup(self, m, key, st, default):
+        """m[key] (default None: KeyError when absent) / m.get(key, default): one path per entry that can match"""
+        kt = self.box(key)
+        if m.items and all(isinstance(val, T) for _, val in m.items) and (default is None or isinstance(default[0], T)):
+            # scalar values: one value term (an if-chain over the keys) instead of one path per entry
+            found = z3.Or(*[kt == kterm for kterm, _ in m.items])
+            acc = self.box(default[0]) if default is not None else self.box(m.items[-1][1])
+            for kterm, val in reversed(m.items):
+                acc = z3.If(kt == kterm, self.box(val), acc)
+            kinds = {val.kind for _, val in m.items} | ({default[0].kind} if default is not None else set())
+            if kinds <= {"int"}:
+                res = T("int", self.int_term(T("V", acc)))
+            elif kinds <= {"str"}:
+                res = T("str", self.str_term(T("V", acc)))
+            else:
+                res = T("V", acc)
+            if default is not None:
+                return self.ok(res, st)
+            return self.split(st, found, lambda a: self.ok(res, a), lambda b: self.raise_(b, "KeyError"))
+        out = []
+        rest = st
+        for kterm, val in m.items:
+            hit = rest.fork(kt == kterm)
+            if self.feasible(hit):
+                out.extend(self.ok(val, hit))
+            rest = rest.fork(kt != kterm)
+        if self.feasible(rest):
+            out.extend(self.raise_(rest, "KeyError") if default is None else self.ok(default[0], rest))
+        return out
+
     def norm_idx(self, i, n):
         return z3.If(i < 0, i + n, i)
 
     def subscript(self, c, idx, st, node=None):
         U = self.U
         txt = ast.unparse(node) if node is not None else ""
+        if isinstance(c, PyMap):
+            return self.pymap_lookup(c, idx, st, None)
         if isinstance(c, Tup):
             i = z3.simplify(self.int_term(idx))
             if z3.is_int_value(i):
